@@ -146,7 +146,7 @@ PROPS = {
              "(b) engine-level: bundled and generated voices (2/3 streams, stage 0 / >=1), random in-envelope conditions, 1..3 labels, set_volume(v) vs 0 dB, v in [-60,60] "
              "incl. +-6.02, +-60, 20; get_volume read back; all other getters compared. class = (voice kind / stage, sign of v); non-trivial = v != 0",
         theorem_clauses=["one frame at gain g = frame at gain 1 scaled, vocoder state identical (any family)", "whole rendering scales by g (induction over frames)",
-                         "get_volume(set_volume v) = v given ln(exp x) = x", "decibels add (exp of a sum)", "set_volume changes no other setting"],
+                         "get_volume(set_volume v) = v given ln(exp x) = x", "decibels add (exp of a sum)", "set_volume changes no other setting", "pipeline level: Engine::synthesize at gain g = g x synthesize at gain 1; set_volume(v) = exp(v*DB) x the 0 dB waveform"],
         test_clauses=["10^(v/20) vs exp(v*DB) in f64 (1e-12 relative)"],
         assumptions=["exp/ln laws enter as explicit hypotheses on the Transc instance"],
     ),
@@ -188,7 +188,7 @@ PROPS = {
         rule="the bundled voice and PDF-perturbed copies (the property's quantifier) with random in-envelope conditions (GV on), 2..6 labels; h in [-24,24] incl. 0, +-12, +-24 and values up "
              "to +-80 that drive the clamp; two engine runs (h and 0) through the hook. class = (voice kind, zero/up/down/clamped); non-trivial = h != 0 with a voiced frame",
         theorem_clauses=["h = 0 is the identity", "static mean -> clamp(m + h*ln2/12), nothing else of the state changes", "voicing mask unchanged", "durations unchanged",
-                         "spectrum and low-pass streams unchanged", "trajectory level: shifting every static mean by h shifts the ML trajectory by exactly h (dynamic windows summing to 0)", "the shift law also holds through conv_gv and the five adaptive Newton-like GV steps (par_shift)", "END TO END (model): create after apply_additional_half_tone(h) = create + h*ln2/12 on every voiced frame, NODATA kept, while no state mean is clamped"],
+                         "spectrum and low-pass streams unchanged", "trajectory level: shifting every static mean by h shifts the ML trajectory by exactly h (dynamic windows summing to 0)", "the shift law also holds through conv_gv and the five adaptive Newton-like GV steps (par_shift)", "END TO END (model): create after apply_additional_half_tone(h) = create + h*ln2/12 on every voiced frame, NODATA kept, while no state mean is clamped", "pipeline level: durations, spectrum, low-pass unchanged; log-F0 + h*ln2/12 on voiced frames"],
         test_clauses=["log-F0 of every voiced frame moves by h*ln2/12 through MLPG and GV (1e-6) while no state is clamped"],
         assumptions=["shift-equivariance of the ML solution and of the GV iteration is tested, not proved"],
     ),
